@@ -47,7 +47,7 @@ def floors(tier):
             "cls:kind:predform": 300, "cls:kind:flatten": 300, "cls:kind:concat": 200, "cls:falsy_in_result": 800,
             "cls:falsy_selected_output": 100, "cls:one_expression_object_as_value_and_condition_in_one_query": 100, "cls:falsy_constructor_argument": 150, "cls:falsy_field_constraint": 150,
             "cls:falsy_flattened_element": 150, "cls:condition_position_falsy": 80,
-            "cls:kind:shared": 200, "cls:kind:expr_domain": 200, "cls:falsy_value_in_expression_domain": 150, "cls:shared_expression_condition_and_value": 50}
+            "cls:kind:shared": 200, "cls:scale:inner_collections_of_17_to_40_elements": 100, "cls:scale:equality_join_on_falsy_values_over_36_to_60_objects": 60, "cls:kind:expr_domain": 200, "cls:falsy_value_in_expression_domain": 150, "cls:shared_expression_condition_and_value": 50}
 
 
 def cases(spec, ctx):
@@ -79,7 +79,16 @@ def cases(spec, ctx):
         elif kind == "multi":
             case = multi.gen_case(rng, nvars=(2, 3), depth=(1, 3), opts={"falsy": True}, world_kw={"falsy": True},
                                   allow_expr_sel=False)
-            if rng.random() < 0.4:
+            if rng.random() < 0.04:
+                # SIZE: an equality join over 36-60 objects a side whose joined values are falsy for many of them (None, 0, '', False
+                # on BOTH sides): every such pair is a row
+                A_ = lambda vi, f: ["v", vi, [["a", f]]]
+                f_ = rng.choice(["flag", "flag", "s"])
+                case = {"world": D.random_world(rng, np_=(36, 60), nq=(1, 2), falsy=True), "kinds": ["P", "P"],
+                        "cond": ["cmp", "==", A_(0, f_), A_(1, f_)], "sel": [0, 1], "big_join": True}
+                if rng.random() < 0.5:
+                    case["cond"] = ["and", case["cond"], ["cmp", rng.choice(["!=", "<="]), A_(0, "a"), A_(1, "b")]]
+            elif rng.random() < 0.4:
                 i_ = rng.randrange(len(case["kinds"]))
                 path = ([["a", "p"]] if case["kinds"][i_] == "Q" else []) + \
                     rng.choice([[["a", "flag"]], [["a", "s"]], [["a", "t"]], [["a", "d"], ["i", "m"]], [["a", "d"], ["i", "m"]]])
@@ -115,12 +124,18 @@ def cases(spec, ctx):
         elif kind == "flatten":
             parents = [{"k": j, "items": [rng.choice([0, 1, "", "x", None, False, 2]) for _ in range(rng.randint(0, 4))]}
                        for j in range(rng.randint(1, 4))]
-            if rng.random() < 0.3:      # a non-iterable (possibly falsy) value counts as a single element
+            long_lists = rng.random() < 0.08
+            if long_lists:
+                # SIZE: inner collections of 17-40 elements, every kind of falsy element at every position (also at multiples of 16)
+                parents = [{"k": j, "items": [rng.choice([0, 1, "", "x", None, False, 2, 3, "y"]) for _ in range(rng.randint(17, 40))]}
+                           for j in range(rng.randint(1, 3))]
+            elif rng.random() < 0.3:      # a non-iterable (possibly falsy) value counts as a single element
                 for p_ in parents:
                     p_["items"] = rng.choice([0, 1, "", None, False, 2, "x"])
             yield {"kind": kind, "parents": parents, "sel": rng.choice(["elem", "parent_elem"]),
                    "cond": rng.choice(["none", "eq0", "ne0", "in_falsy", "parent0", "and_ne_eq", "and_ne_eq", "or_eq_eq", "not_and"]),
-                   "lits": [rng.choice(["x", 1, 2, "", 0]), rng.choice(["", 0, False, None])], "caching": rng.random() < 0.7}
+                   "lits": [rng.choice(["x", 1, 2, "", 0]), rng.choice(["", 0, False, None])], "caching": rng.random() < 0.7,
+                   "long_lists": long_lists}
         else:
             parents = [{"k": j, "items": [] if rng.random() < 0.5 else [rng.choice([0, 1, "", None, False, 2]) for _ in range(rng.randint(0, 3))]}
                        for j in range(rng.randint(1, 4))]
@@ -450,6 +465,10 @@ SUB = {"expr_domain": _check_expr_domain, "shared": _check_shared, "single": _ch
 
 def check_case(case, ctx):
     ctx.cls("cls:kind:" + case["kind"])
+    if case.get("long_lists"):
+        ctx.cls("cls:scale:inner_collections_of_17_to_40_elements")
+    if case.get("big_join"):
+        ctx.cls("cls:scale:equality_join_on_falsy_values_over_36_to_60_objects")
     try:
         s = SUB[case["kind"]](case, ctx)
     except Exception as e:
